@@ -77,7 +77,9 @@ func ruleGroupSpawn(c *Ctx, r *R) {
 		return nil
 	}
 	pkg := sp.Pkg
-	spf := &PF{N: 16, DeepVisit: true, InScope: func(f *ssa.Function) bool { return rootFn(f).Pkg == pkg && f.Blocks != nil && f != sp && f.Parent() == nil }}
+	spf := &PF{N: 16, DeepVisit: true, InScope: func(f *ssa.Function) bool {
+		return rootFn(f).Pkg == pkg && f.Blocks != nil && f != sp && f.Parent() == nil
+	}}
 	spf.Instr = func(f *ssa.Function, in ssa.Instruction, q int) (StateSet, bool) {
 		var cc *ssa.CallCommon
 		switch x := in.(type) {
@@ -308,7 +310,9 @@ func ruleGroupNoRunAfterStop(c *Ctx, r *R) {
 		// typestate per loop iteration: bit0 = g.ctx.Err() == nil was established, bit1 = came out of a blocking select (which
 		// has a g.ctx.Done() arm) through another arm, bit2 = came through the g.ctx.Done() arm. Reset by each run of f.
 		pkg := rootFn(w).Pkg
-		pf := &PF{N: 8, DeepVisit: true, InScope: func(f *ssa.Function) bool { return rootFn(f).Pkg == pkg && f.Blocks != nil && f != w && f.Name() != "spawn" }}
+		pf := &PF{N: 8, DeepVisit: true, InScope: func(f *ssa.Function) bool {
+			return rootFn(f).Pkg == pkg && f.Blocks != nil && f != w && f.Name() != "spawn"
+		}}
 		isGroupCtx := func(v ssa.Value) bool {
 			for _, lf := range valueLeaves(v, nil, 0) {
 				pv := valueProv(lf.v, provEnv{})
@@ -559,7 +563,9 @@ var _ = late(func() {
 					continue
 				}
 				wpkg := rootFn(w).Pkg
-				pf := &PF{N: 2, InScope: func(f *ssa.Function) bool { return rootFn(f).Pkg == wpkg && f.Blocks != nil && f != w && f.Name() != "spawn" }} // 0 = not re-armed since the select, 1 = re-armed
+				pf := &PF{N: 2, InScope: func(f *ssa.Function) bool {
+					return rootFn(f).Pkg == wpkg && f.Blocks != nil && f != w && f.Name() != "spawn"
+				}} // 0 = not re-armed since the select, 1 = re-armed
 				pf.Instr = func(f *ssa.Function, in ssa.Instruction, q int) (StateSet, bool) {
 					switch x := in.(type) {
 					case *ssa.Select:
